@@ -1,4 +1,8 @@
-use super::{authenticate::AuthenticationRequest, register::RegisterRequest, ResponseStatusWords};
+use super::{
+    authenticate::{AuthenticationParameter, AuthenticationRequest},
+    register::RegisterRequest,
+    ResponseStatusWords,
+};
 
 /// U2F command, determined at the INS position,
 ///
@@ -73,7 +77,8 @@ impl TryFrom<&[u8]> for Request {
 
     #[expect(clippy::as_conversions)]
     fn try_from(value: &[u8]) -> Result<Self, Self::Error> {
-        if value.len() < REQUEST_HEADER_LEN {
+        let data_start = REQUEST_HEADER_LEN + 1;
+        if value.len() < data_start {
             return Err(ResponseStatusWords::WrongLength);
         }
 
@@ -83,13 +88,14 @@ impl TryFrom<&[u8]> for Request {
         }
         let ins = Command::from(value[1]);
         let p1 = value[2];
-        let data_start = REQUEST_HEADER_LEN + 1;
         // SAFETY: This unwrap is safe since 3..7 gives 4 bytes which is a safe conversion to an
         // array of len 4. Technically the first of these bytes is `p2` the second parameter,
         // but in the base U2F spec this will always be 0. So this length is safe.
         let data_len = u32::from_be_bytes(value[3..data_start].try_into().unwrap()) as usize;
-        let data_end = data_start + data_len;
-        let payload = &value[data_start..data_end];
+        let payload = data_start
+            .checked_add(data_len)
+            .and_then(|data_end| value.get(data_start..data_end))
+            .ok_or(ResponseStatusWords::WrongLength)?;
 
         let data = match ins {
             Command::Register => RequestPayload::Register(
@@ -99,8 +105,12 @@ impl TryFrom<&[u8]> for Request {
                     .map_err(|_| ResponseStatusWords::WrongLength)?,
             ),
             Command::Authenticate => RequestPayload::Authenticate(
-                AuthenticationRequest::try_from(payload, p1)
-                    .map_err(|_| ResponseStatusWords::WrongLength)?,
+                AuthenticationRequest::try_from(
+                    payload,
+                    AuthenticationParameter::from_control_byte(p1)
+                        .ok_or(ResponseStatusWords::WrongData)?,
+                )
+                .map_err(|_| ResponseStatusWords::WrongLength)?,
             ),
             Command::Version => RequestPayload::Version,
             Command::Unsuported(_) => return Err(ResponseStatusWords::InsNotSupported),
